@@ -99,7 +99,7 @@ def countScan (text : Bytes) (msg : Bool) (orig : Option (List Cell)) : String :
         let e := match orig with
           | none => ""
           | some o =>
-            match ArgVal.eq (o.length + cells.length + 4) o cells o.length n with
+            match ArgVal.eq ((o.length + cells.length + 4) * 4) o cells o.length n with
             | .ok b => " E " ++ (if b then "1" else "0")
             | .error _ => " E model:argval"
         s!"C {count} S {rd} {cells.length}{cellsTxt}{a}{e}"
